@@ -47,12 +47,19 @@ def run(body, *args):
         ctx.LAST_TB = traceback.format_exc()
         ok, cls = False, "exception"
     ctx.LAST_CLS = cls
+    if _DEBUG:
+        import sys
+        sys.stderr.write("xv-path %d ok=%s cls=%s exc=%s\n" % (ctx.PATHS, ok if isinstance(ok, bool) else "sym", cls, ctx.LAST_EXC))
     mode = ctx.MODE
     if mode == "main":
         return True if ok else False
     if mode == "reach":
         return False
     return cls != mode[6:]
+
+
+import os as _os
+_DEBUG = bool(_os.environ.get("XV_DEBUG"))
 
 
 class Suspended(RuntimeError):
